@@ -4,7 +4,7 @@ from __future__ import annotations
 import random
 from pathlib import Path
 
-from .. import models, pdugen, vclock, wire
+from .. import models, pdugen, prep, vclock, wire
 from ..world import PROTO_EXC, World
 
 PROP = "C05"
@@ -26,7 +26,58 @@ ASSUMPTIONS = [
 
 def gen_cases(tier, seed):
     n = 2500 if tier == "quick" else 60000
-    return [{"seed": seed * 1_000_003 + i} for i in range(n)]
+    cases = [{"seed": seed * 1_000_003 + i} for i in range(n)]
+    # a File Data PDU without payload (legal on the wire; the dependency cannot parse it from bytes, so it is handed over as an object):
+    # whatever its offset, the destination file does not change
+    for mode in ("ack", "unack"):
+        for off in (0, 2, 4, 8, 9, 100, 70000):
+            for when in ("start", "middle", "after_all_data"):
+                cases.append({"t": "empty_fd", "mode": mode, "off": off, "when": when})
+    return cases
+
+
+def run_empty_fd(case):
+    from spacepackets.cfdp.pdu import FileDataPdu
+    from spacepackets.cfdp.pdu.file_data import FileDataParams
+
+    viol, obs = [], {"empty_file_data_cases": 1}
+    cfg = {"mode": case["mode"], "closure": False, "size": 8, "seg": 4, "fs": "native"}
+    with World(cfg) as w:
+        D = w.D
+        tc = prep.tx_conf(w)
+        data = w.data
+        md = pdugen.raw("MD", tc, {"size": 8, "cks": "crc32", "src_name": w.src_path.as_posix(), "dst_name": w.dst_req_path.as_posix()})
+        seq = [("MD", md)]
+        fds = [("FD", pdugen.raw("FD", tc, {"offset": o, "data": data[o : o + 4]})) for o in (0, 4)]
+        empty = ("EMPTY", None)
+        seq += {"start": [empty] + fds, "middle": [fds[0], empty, fds[1]], "after_all_data": fds + [empty]}[case["when"]]
+        model = w.tree()
+        dst = rel(w, w.dst_path)
+        for kind, raw in seq:
+            try:
+                if kind == "EMPTY":
+                    D.sm(FileDataPdu(tc, FileDataParams(file_data=b"", offset=case["off"], segment_metadata=None)), {"kind": "FD"})
+                else:
+                    prep.feed(D, raw)
+            except Exception as e:  # noqa: BLE001
+                obs["empty_file_data_refused"] = 1
+            D.outbox.clear()
+            if kind == "MD":
+                model[dst] = b""
+            elif kind == "FD":
+                d = wire.describe(raw)
+                buf = bytearray(model[dst])
+                models.sparse_write(buf, d["offset"], data[d["offset"] : d["offset"] + d["dlen"]])
+                model[dst] = bytes(buf)
+            actual = w.tree()
+            if actual != model:
+                viol.append({"clause": "tree-differs-from-write-model", "after": kind, "empty_file_data_offset": case["off"], "when": case["when"],
+                             "actual": {k: _brief(v) for k, v in actual.items() if model.get(k) != v}, "model": {k: _brief(v) for k, v in model.items() if actual.get(k) != v}})
+                break
+            obs["calls_compared"] = obs.get("calls_compared", 0) + 1
+    for v in viol:
+        v["case"] = case
+    return {"viol": viol, "obs": obs, "sig": case, "sample": None}
 
 
 def rel(w: World, p) -> str:
@@ -34,6 +85,8 @@ def rel(w: World, p) -> str:
 
 
 def run_case(case):
+    if case.get("t") == "empty_fd":
+        return run_empty_fd(case)
     rng = random.Random(case["seed"])
     cfg = {"mode": "ack", "disp": rng.random() < 0.5, "imm_nak": rng.random() < 0.5, "check_limit": rng.choice([1, 2]), "nak_limit": 2, "ack_limit": 2,
            "size": 7, "fs": "native", "crc": rng.random() < 0.2,
@@ -74,6 +127,7 @@ def run_case(case):
             cks = rng.choice(["crc32", "crc32", "crc32c", "modular", "null"])
             md = pdugen.raw("MD", tc, {"size": size, "cks": cks, "closure": closure, "src_name": w.src_path.as_posix(), "dst_name": dreq.as_posix()})
             md_known = False
+            delivered_complete = False
             tx_resolved = None
             in_order = rng.random() < 0.5
             nxt_off = 0
@@ -185,7 +239,9 @@ def run_case(case):
                             pass
                     elif k == "ind_finished":
                         fin = e["fin"]
-                        if fin[0] != "NO_ERROR" and cfg["disp"] and fin[1] == "DATA_INCOMPLETE" and md_known and tx_resolved in model:
+                        if tuple(fin[:2]) == ("NO_ERROR", "DATA_COMPLETE"):
+                            delivered_complete = True  # a file reported as delivered is not deleted by anything that happens later
+                        if fin[0] != "NO_ERROR" and cfg["disp"] and fin[1] == "DATA_INCOMPLETE" and md_known and tx_resolved in model and not delivered_complete:
                             del model[tx_resolved]
                             obs["deletions_expected"] = obs.get("deletions_expected", 0) + 1
                     elif k == "fs" and e["side"] == "D":
@@ -221,6 +277,7 @@ def run_case(case):
                     if md_known:
                         obs["transactions_with_metadata_finished"] = obs.get("transactions_with_metadata_finished", 0) + 1
                     md_known = False
+                    delivered_complete = False
                     tx_resolved = None
                     if step >= nsteps:
                         break
@@ -246,5 +303,5 @@ def _brief(x):
     return {"len": len(x), "hex": bytes(x[:24]).hex()}
 
 
-REQUIRED = {"histories_with_user_editing_indication_parameters": 300, "writes_applied_and_compared": 2000, "metadata_accepted": 500, "deletions_expected": 20, "file_data_before_metadata": 100,
+REQUIRED = {"empty_file_data_cases": 40, "histories_with_user_editing_indication_parameters": 300, "writes_applied_and_compared": 2000, "metadata_accepted": 500, "deletions_expected": 20, "file_data_before_metadata": 100,
             "mutating_filestore_calls_checked": 2000, "transactions_with_metadata_finished": 300}
